@@ -198,7 +198,7 @@ def describe(typ, body):
 
 def update_summary(body):
     """counts and attribute type codes of an UPDATE the agent wrote (harness-side reader, RFC 4271 4.3)"""
-    out = {'wdn': -1, 'nln': -1, 'ats': [], 'lp': -1}
+    out = {'wdn': -1, 'nln': -1, 'ats': [], 'lp': -1, 'aspl': -1}
     try:
         wl = struct.unpack('!H', body[:2])[0]
         wd = body[2:2 + wl]
@@ -224,6 +224,8 @@ def update_summary(body):
                 v = at[3:3 + ln]
                 at = at[3 + ln:]
             out['ats'].append(t)
+            if t == 2:
+                out['aspl'] = len(v)          # octets of the AS_PATH value (shows the width the AS numbers were written with)
             if t == 5 and len(v) == 4:
                 lp = struct.unpack('!I', v)[0]
                 out['lp'] = lp if lp < 2 ** 31 else 2 ** 31 - 1
